@@ -235,9 +235,23 @@ def pickle_frame_obligations(pid):
             for k, v in want.items():
                 got = st["overridden"].get(k)
                 # (the INS version guards on a missing model: two writes)
-                src = ast.unparse(fn)
-                if v.replace("'", '"') in src.replace("'", '"') and \
-                        k in src:
+                # EVERY value assigned to state[k] must be exactly the
+                # model's counter (or the literal 0 of the importance
+                # sampler's missing-model branch): a value that adds the
+                # previously restored count double counts on a second resume
+                vals = []
+                for node in ast.walk(fn):
+                    if isinstance(node, ast.Assign):
+                        for t in node.targets:
+                            if isinstance(t, ast.Subscript) and isinstance(
+                                    t.slice, ast.Constant) and \
+                                    t.slice.value == k:
+                                vals.append(ast.unparse(node.value))
+                norm = [x.replace("'", '"').replace(" ", "") for x in vals]
+                want_v = v.replace("'", '"').replace(" ", "")
+                got = vals
+                if norm and want_v in norm and all(
+                        x == want_v or x == "0" for x in norm):
                     ok += 1
                 else:
                     fail(f"{cls}::counter[{k}]", cls,
